@@ -66,8 +66,9 @@ theorem tryCands_no_match (h : Nested) (m : Machine) (t : Trigger) (trs : List T
 the event (e.g. the name is not a declared event at all), processing it changes *nothing* in the
 configuration (no callback, no write, queue and counters untouched) and yields
 `TransitionNotAllowed(event, state)`, or `None` under `allow_event_without_transition`. This
-includes the reserved name `__initial__` once the machine holds a state (D23 repaired). -/
-theorem C13_unknown (h : Nested) (m : Machine) (t : Trigger) (c : Cfg)
+includes the reserved name `__initial__` sent by anybody once the machine holds a state (D23 repaired; `hi`: the
+trigger is not the engine's own activation trigger, which is a no-op then — `C11_stale_activation`). -/
+theorem C13_unknown (h : Nested) (m : Machine) (t : Trigger) (c : Cfg) (hi : t.internal = false)
     (hne : (t.event == initialEv) = false ∨ c.cur.isNone = false) (s : StateId) (hs : c.cur.bind (lookupState m) = some s)
     (hno : t.event ∉ allowedEvents m s) :
     trigger h m t c = (c, if m.allow then .ok (some .none) else .error (.notAllowed t.event s)) := by
@@ -81,7 +82,7 @@ theorem C13_unknown (h : Nested) (m : Machine) (t : Trigger) (c : Cfg)
   rw [bind_ok (x := EM.get) (c := c) (a := c) rfl]
   have hcond : (t.event == initialEv && c.cur.isNone) = false := by
     rcases hne with h1 | h1 <;> simp [h1]
-  simp only [EM.get, hcond, Bool.false_eq_true, if_false, hs]
+  simp only [EM.get, hcond, hi, Bool.and_false, Bool.false_eq_true, if_false, hs]
   rw [bind_ok (a := none) (by rw [tryCands_no_match h m t _ hno' c])]
   rw [tryCands_no_match h m t _ hno' c]
   simp only
